@@ -91,3 +91,136 @@ def _binned_ecdf(x, vals):
         if not same_float(cdf[k], e):
             bad.append('binned_ecdf at %r: %r required %r (x=%r)' % (q, cdf[k], e, xs.tolist()))
     return bad
+
+
+# ------------------------------------------------------------------ C02
+TOL_REL = {'float64': 1e-11, 'float32': 1e-5}
+
+
+def _mkbins(bins):
+    if isinstance(bins, dict) and '__grid__' in bins:
+        a0, h, n = bins['__grid__']
+        return numpy.array([a0 + k * h for k in range(int(n))], dtype=bins.get('dtype', 'float64'))
+    return numpy.asarray(bins)
+
+
+def bin1d_clauses(p, bins, r, right_continuous, tol_rel=None):
+    """clauses of the bin1d_vec contract on concrete data; returns list of violations"""
+    bad = []
+    p = numpy.atleast_1d(numpy.asarray(p))
+    r = numpy.atleast_1d(numpy.asarray(r))
+    n = len(bins)
+    if r.shape != p.shape:
+        return ['result shape %r for input shape %r' % (r.shape, p.shape)]
+    if not numpy.issubdtype(r.dtype, numpy.integer):
+        bad.append('result dtype %s is not integer' % r.dtype)
+    a0 = float(bins[0])
+    h = float(bins[1] - bins[0]) if n > 1 else 1.0
+    opn = bool(right_continuous) or n == 1
+    if tol_rel is None:
+        tol_rel = TOL_REL['float32'] if p.dtype == numpy.float32 else TOL_REL['float64']
+    edges = [float(b) for b in bins]
+    for v, ri in zip(p.tolist(), r.tolist()):
+        v = float(v)
+        if not (-1 <= ri <= n - 1):
+            bad.append('index %r out of range for value %r' % (ri, v))
+            continue
+        # largest k with v >= e_k  (exact float comparisons on the given edges)
+        kge = -1
+        for k in range(n):
+            if v >= edges[k]:
+                kge = k
+        tau = lambda k: tol_rel * (abs(v) + (k + 2) * abs(a0))
+        if kge >= 0:
+            top = edges[n - 1] + h
+            if opn:
+                if ri < kge:
+                    bad.append('value %r is at/above edge %d (%r) but got bin %r (open mode)' % (v, kge, edges[kge], ri))
+            else:
+                if kge == n - 1 and v >= top * (1 + 0) + tau(n):
+                    if ri != -1:
+                        bad.append('value %r beyond the closed top %r must be -1, got %r' % (v, top, ri))
+                elif not (ri >= kge or (ri == -1 and kge == n - 1 and v >= top - tau(n - 1))):
+                    bad.append('value %r is at/above edge %d (%r) but got bin %r (closed mode)' % (v, kge, edges[kge], ri))
+            # upper exclusive (granted tolerance below the next edge)
+            nxt = edges[kge + 1] if kge + 1 < n else (None if opn else top)
+            if nxt is not None and v < nxt - tau(kge) and not (ri <= kge and ri >= 0):
+                bad.append('value %r is below edge %d (%r) by more than the tolerance but got bin %r' % (v, kge + 1, nxt, ri))
+        else:
+            if v < a0 - tol_rel * (abs(v) + abs(a0)) and ri != -1:
+                bad.append('value %r below the first edge %r must be -1, got %r' % (v, a0, ri))
+    if opn and len(p) > 1:
+        order = numpy.argsort(p, kind='stable')
+        rs = r[order]
+        if numpy.any(numpy.diff(rs) < 0):
+            j = int(numpy.argmax(numpy.diff(rs) < 0))
+            bad.append('not monotone: %r -> %r but %r -> %r' % (p[order][j], rs[j], p[order][j + 1], rs[j + 1]))
+    return bad[:5]
+
+
+@oracle('bin1d_vec')
+def _bin1d_vec(p, bins, tol=None, right_continuous=False):
+    from csep.utils.calc import bin1d_vec
+    b = _mkbins(bins)
+    out = call(bin1d_vec, p, b, tol=tol, right_continuous=right_continuous)
+    if len(b) > 1 and b[1] - b[0] < 0:
+        return [] if (out[0] == 'raise' and isinstance(out[1], ValueError)) else ['decreasing edges must raise ValueError']
+    if out[0] == 'raise':
+        return ['unexpected exception ' + _exc(out)]
+    return bin1d_clauses(p, b, out[1], right_continuous)
+
+
+@oracle('cleaner_range')
+def _cleaner_range(start, end, h):
+    """edges are exactly the floats closest to the decimal grid start + k*h"""
+    from decimal import Decimal
+    from csep.utils.calc import cleaner_range
+    out = call(cleaner_range, start, end, h)
+    if out[0] == 'raise':
+        return ['unexpected exception ' + _exc(out)]
+    ds, de, dh = Decimal(repr(float(start))), Decimal(repr(float(end))), Decimal(repr(float(h)))
+    n = int((de - ds) / dh) + 1
+    exp = [float(ds + k * dh) for k in range(n)]
+    got = [float(x) for x in out[1]]
+    if len(got) != len(exp):
+        return ['cleaner_range(%r,%r,%r) has %d edges, decimal grid has %d' % (start, end, h, len(got), len(exp))]
+    for k, (a, b) in enumerate(zip(got, exp)):
+        if a != b:
+            return ['cleaner_range(%r,%r,%r)[%d] = %r, closest float to the decimal grid is %r' % (start, end, h, k, a, b)]
+    return []
+
+
+@oracle('magnitude_bins')
+def _magnitude_bins(start_magnitude, end_magnitude, dmw):
+    from csep.core import regions
+    import csep.utils.calc as calc
+    out = call(regions.magnitude_bins, start_magnitude, end_magnitude, dmw)
+    ref = call(calc.cleaner_range, start_magnitude, end_magnitude, dmw)
+    if out[0] != ref[0] or (out[0] == 'return' and not numpy.array_equal(out[1], ref[1])):
+        return ['magnitude_bins differs from cleaner_range']
+    return _cleaner_range(start_magnitude, end_magnitude, dmw)
+
+
+class _Rec:
+    pass
+
+
+@oracle('get_magnitude_index')
+def _get_magnitude_index(mags, magnitudes, tol=None):
+    from csep.core.forecasts import MarkedGriddedDataSet
+    b = _mkbins(magnitudes)
+    obj = MarkedGriddedDataSet.__new__(MarkedGriddedDataSet)
+    obj.region = _Rec()
+    obj.region.magnitudes = b
+    out = call(obj.get_magnitude_index, mags, tol=tol)
+    mags = numpy.asarray(mags, dtype=float)
+    below = mags < b[0] - TOL_REL['float64'] * (numpy.abs(mags) + abs(b[0]))
+    if out[0] == 'raise':
+        if isinstance(out[1], ValueError) and numpy.any(mags < b[0]):
+            return []
+        return ['unexpected exception ' + _exc(out)]
+    if numpy.any(below):
+        return ['magnitude %r below the first edge %r did not raise' % (float(mags[below][0]), float(b[0]))]
+    if numpy.any(numpy.asarray(out[1]) < 0):
+        return ['negative index returned']
+    return bin1d_clauses(mags, b, out[1], True)
